@@ -17,7 +17,7 @@ from . import lib_deps as L
 from .common import parallel_map
 
 RULE = ("cases = (declared graph, root, topological, checkCycles) listings, (declared graph, root) installation orders "
-        "of Distrib._createDeps, (declared graph, uses target with or "
+        "of Distrib._createDeps, (declared graph, products set up, root, mode) `--setup` listings, (declared graph, uses target with or "
         "without version) queries, and integer graphs given to topologicalSort/stronglyConnectedComponents; graphs "
         "are generated from shapes (chain, diamond, shared sub-tree, random DAG, cyclic, name-cyclic across versions) "
         "with optional edges, explicit versions of declared and undeclared versions, two versions of one product, "
@@ -511,6 +511,78 @@ def run_cli_sample(job):
         common.rmtree(root)
 
 
+def _listing_setup(root, mode):
+    """`eups list -D --setup [--topological] [--checkCycles] name`: the root is the set-up version of `name`"""
+    ecmd = L.cli_eups("list", ["-D", "--setup"] + (["--topological"] if mode[0] else []) + (["--checkCycles"] if mode[1] else []) + [root[0]])
+    e = ecmd.createEups(ecmd.opts, versionName=None, quiet=1)
+    plist = e.getSetupProducts(root[0])
+    plist.sort(key=lambda p: (p.name, p.version))
+    return L.canon_listing(e.getDependentProducts(plist[0], True, topological=mode[0], checkCycles=mode[1]))
+
+
+def run_impl_setup(job):
+    """One forked child per (graph, set of set-up products): the `--setup` listings of every set-up product."""
+    graph, setup = job
+    root = common.scratch("c13s")
+    devnull = os.open(os.devnull, os.O_WRONLY)
+    os.dup2(devnull, 1)
+    os.dup2(devnull, 2)
+    try:
+        s = L.install(root, graph)
+        L.set_up_in_env(s, setup)
+        lists = []
+        for r in setup:
+            row = []
+            for mode in MODES:
+                try:
+                    row.append(L.quietly(_listing_setup, r, mode))
+                except BaseException as ex:  # noqa
+                    row.append(L.err_class(ex))
+            lists.append(row)
+        return {"lists": lists}
+    finally:
+        common.rmtree(root)
+
+
+def in_child_setup(job):
+    r = common.in_child(run_impl_setup, job)
+    return r[1] if r[0] == "ok" else {"crash": r}
+
+
+def gen_setup(rng, graph):
+    """one declared version of some products with plain names, as `setup` would leave them in the environment"""
+    byname = {}
+    for p in graph["products"]:
+        if p["name"].isalnum() and not p.get("missing"):
+            byname.setdefault(p["name"], []).append(p["version"])
+    names = sorted(byname)
+    if len(names) < 2:
+        return []
+    chosen = rng.sample(names, rng.randint(2, min(len(names), 5)))
+    return sorted([n, rng.choice(byname[n])] for n in chosen)
+
+
+def oracle_setup_listing(R, setup, root, mode, out):
+    """`--setup`: the listing names, for every product name the closure of the root holds (the root itself aside),
+    the version of it that is set up, and nothing else."""
+    rootn = (root[0], root[1], True)
+    listed, expanded = R.closure(rootn)
+    if any(R.has_unsetup.get(u) for u in expanded):
+        return
+    if isinstance(out, str):
+        if out == "Cycle" and mode[1]:
+            return                      # cycles: the clause of the plain listings
+        yield ("setup_no_error", None, "listing raised %s" % out)
+        return
+    sv = {n: v for n, v in setup}
+    want = {(t[0], sv[t[0]], True) for t in listed if t != rootn and t[0] in sv}
+    got = [(e[0], e[1], e[2]) for e in out]
+    if set(got) != want:
+        yield ("setup_listing_exact", None, "missing %s, extra %s" % (sorted(want - set(got)), sorted(set(got) - want)))
+    elif (mode[0] or mode[1]) and len(got) != len(set(got)):
+        yield ("listed_once", None, "a product is listed twice")
+
+
 def in_child_job(job):
     r = common.in_child(run_impl, job)
     return r[1] if r[0] == "ok" else {"crash": r}
@@ -639,6 +711,34 @@ def evaluate(ctx, graphs, ncli=2, corpus=False):
                     if out != mo:
                         ctx.disagree("users", inp, out, mo)
                     for clause, fid, detail in oracle_users(R, g, q, out, cache):
+                        ctx.fail(clause, inp, out, mo, note=detail, finding=fid)
+    # `eups list -D --setup`: a third of the graphs, with two to five products set up
+    sjobs = []
+    for g, roots, queries in jobs:
+        if ctx.rng.random() < 0.35 and not any(d["k"] in ("unreq", "unopt") for p in g["products"] for d in p["deps"]):
+            su = gen_setup(ctx.rng, g)
+            if su:
+                sjobs.append((g, su))
+    if sjobs:
+        simpl = parallel_map(in_child_setup, sjobs, workers=6)
+        sans = ctx.lean.ask_many([{"m": "c13", "op": "setup", "graph": {"products": g["products"]}, "setup": su,
+                                   "roots": su, "modes": MODES} for g, su in sjobs])
+        for (g, su), io_, ans in zip(sjobs, simpl, sans):
+            if "bad-op" in ans:
+                raise common.InfraError("driver rejected a C13 setup request: %s" % ans["bad-op"])
+            if "crash" in io_:
+                raise common.InfraError("implementation child failed: %r" % (io_["crash"],))
+            R = Resolved(g)
+            ml = model_lists(ans)
+            for ri, r in enumerate(su):
+                for mi, mode in enumerate(MODES):
+                    out, mo = io_["lists"][ri][mi], ml[ri][mi]
+                    inp = {"graph": g, "setup": su, "root": r, "mode": mode}
+                    ctx.case(key=[g["products"], su, r, mode], nontrivial=bool(R.succ.get((r[0], r[1], True))))
+                    ctx.hist("setup_listing:%s" % (out if isinstance(out, str) else ("some" if out else "empty")))
+                    if out != mo:
+                        ctx.disagree("setup_listing", inp, out, mo)
+                    for clause, fid, detail in oracle_setup_listing(R, su, r, mode, out):
                         ctx.fail(clause, inp, out, mo, note=detail, finding=fid)
     # the command-line sample: must equal what the API gave (hence the model)
     for (gi, kind, a), res in zip(clijobs, cliout):
@@ -826,6 +926,14 @@ def replay(ctx, rp):
     g = inp["graph"]
     R = Resolved(g)
     cli_fails = []
+    if "setup" in inp:
+        io_ = in_child_setup((g, inp["setup"]))
+        ans = ctx.lean.ask({"m": "c13", "op": "setup", "graph": {"products": g["products"]}, "setup": inp["setup"],
+                            "roots": inp["setup"], "modes": MODES})
+        ri, mi = inp["setup"].index(inp["root"]), MODES.index(inp["mode"])
+        out, mo = io_["lists"][ri][mi], model_lists(ans)[ri][mi]
+        fails = [{"clause": c, "class": f, "detail": d} for c, f, d in oracle_setup_listing(R, inp["setup"], inp["root"], inp["mode"], out)]
+        return {"input": inp, "impl_output": out, "model_output": mo, "agree": out == mo, "fails": fails}
     if "root" in inp:
         roots, queries = [inp["root"]], []
     else:
